@@ -198,3 +198,80 @@ def render_property_module(case: dict) -> str:
 
     emit(case["classes"], "")
     return "\n".join(lines) + "\n"
+
+
+# ----------------------------------------------------------------------------- decorated definitions (sync / async mixed)
+# (decorator lines, what CPython binds: "prop" = a property-like descriptor, "wrap" = static/class method, "fn" = a callable
+#  whose inspect.signature is the definition's)
+DECORATORS = (
+    ([], "fn"),
+    (["property"], "prop"),
+    (["functools.cached_property"], "prop"),
+    (["staticmethod"], "wrap"),
+    (["classmethod"], "wrap"),
+    (["functools.cache"], "fn"),
+    (["functools.lru_cache"], "fn"),
+    (["abc.abstractmethod"], "fn"),
+    (["property", "abc.abstractmethod"], "prop"),
+    (["staticmethod", "abc.abstractmethod"], "wrap"),
+)
+_MODULE_LEVEL_DECOS = (0, 0, 5, 6)
+_CLASS_LEVEL_DECOS = (0, 0, 0, 1, 1, 2, 3, 4, 5, 6, 7, 8, 9)
+
+
+@st.composite
+def _deco_items(draw, in_class: bool, lo: int, hi: int):
+    items = []
+    for _ in range(draw(st.integers(lo, hi))):
+        items.append(
+            {
+                "t": "fn",
+                "async": draw(st.integers(0, 1)),
+                "deco": draw(st.sampled_from(_CLASS_LEVEL_DECOS if in_class else _MODULE_LEVEL_DECOS)),
+                "sig": draw(sig_models(2)),
+            }
+        )
+    return items
+
+
+@st.composite
+def decorated_cases(draw):
+    """One module: module-level definitions, a class with decorated sync/async methods, more module-level definitions and
+    optionally a second class — every definition after a decorated one doubles as a probe for state leaking between visits."""
+    body = draw(_deco_items(False, 0, 2))
+    body.append({"t": "cls", "name": "A", "body": draw(_deco_items(True, 1, 5))})
+    body += draw(_deco_items(False, 0, 2))
+    if draw(st.booleans()):
+        body.append({"t": "cls", "name": "B", "body": draw(_deco_items(True, 1, 3))})
+    return {"kind": "deco", "body": body}
+
+
+def decorated_names(case: dict):
+    """Yield (scope path, name, item) in declaration order; names are d0, d1, ... over the whole module."""
+    k = 0
+    for it in case["body"]:
+        if it["t"] == "cls":
+            for sub in it["body"]:
+                yield it["name"], f"d{k}", sub
+                k += 1
+        else:
+            yield "", f"d{k}", it
+            k += 1
+
+
+def render_decorated_module(case: dict) -> str:
+    lines = ["from __future__ import annotations", "import abc", "import functools"]
+    names = iter(decorated_names(case))
+    tag = 0
+    for it in case["body"]:
+        if it["t"] == "cls":
+            lines.append(f"class {it['name']}:")
+            for sub in it["body"]:
+                _, name, _ = next(names)
+                lines.extend(render_fn(name, sub["sig"], tag, DECORATORS[sub["deco"]][0], bool(sub["async"]), "    "))
+                tag += 1
+        else:
+            _, name, _ = next(names)
+            lines.extend(render_fn(name, it["sig"], tag, DECORATORS[it["deco"]][0], bool(it["async"]), ""))
+            tag += 1
+    return "\n".join(lines) + "\n"
